@@ -2,7 +2,6 @@ package interpreter
 
 import (
 	"fmt"
-	"sort"
 	"strings"
 
 	"github.com/truora/minidyn/types"
@@ -87,11 +86,11 @@ func (ni *Native) getMatcher(tablename, expression string, kind ExpressionType) 
 	return matcher, nil
 }
 
+// hashExpressionKey normalizes the expression so that it can be used as registry key:
+// surrounding whitespace is dropped and repeated whitespace collapses into one space.
+// Expressions that differ in any other character have different keys.
 func hashExpressionKey(s string) string {
-	out := strings.Split(strings.TrimSpace(s), "")
-	sort.Strings(out)
-
-	return strings.Join(out, "")
+	return strings.Join(strings.Fields(s), " ")
 }
 
 // AddUpdater add expression updater to use on key or filter queries
